@@ -51,6 +51,7 @@ func runC03(e *env) {
 	e.res.Rule = "byte level: all strings of length <=3 over a 14-symbol alphabet (specials, ; # letter digit space NUL 0x80 2-byte 4-byte rune), all 256 single bytes, random long runs; template level: value x print site x namespace/template autoescape attributes x directive chain. Non-trivial = contains at least one of the five special characters (byte level) or prints a value containing one (template level); distinct by case text."
 	c03Bytes(e)
 	c03Templates(e)
+	c03ModeSequences(e)
 }
 
 func c03Bytes(e *env) {
